@@ -6,7 +6,7 @@ Import ListNotations.
 Local Open Scope Q_scope.
 
 Definition phi_of (c : calc) : Q -> Q -> Q * Q :=
-  match c with Mado => phi_mado | Order4 => phi_o4 | _ => phi_vg end.
+  match c with Mado => phi_mado | Order4 => phi_o4 | Rodo => phi_rodo | _ => phi_vg end.
 
 Lemma sqrt_lo_proper x y : x == y -> sqrt_lo x = sqrt_lo y.
 Proof. intro E. unfold sqrt_lo. assert (H : Qfloor (x * inject_Z (sq_prec * sq_prec)) = Qfloor (y * inject_Z (sq_prec * sq_prec))) by (apply Qfloor_comp; rewrite E; reflexivity). rewrite H. reflexivity. Qed.
@@ -17,11 +17,13 @@ Proof. intro E. unfold sqrt_hi. assert (H : Qfloor (x * inject_Z (sq_prec * sq_p
 Lemma phi_of_sym c u v u' v' : plain_sym c -> u' == - u -> v' == - v ->
   fst (phi_of c u' v') == fst (phi_of c u v) /\ snd (phi_of c u' v') == snd (phi_of c u v).
 Proof.
-  intros [E|[E|E]] Hu Hv; rewrite E; cbn [phi_of phi_vg phi_mado phi_o4 fst snd].
+  intros [E|[E|[E|E]]] Hu Hv; rewrite E; cbn [phi_of phi_vg phi_mado phi_o4 phi_rodo fst snd].
   - rewrite Hu, Hv. split; field.
   - assert (H : Qabs (u' * v') == Qabs (u * v)) by (rewrite Hu, Hv; setoid_replace (- u * - v) with (u * v) by ring; reflexivity).
     rewrite (sqrt_lo_proper _ _ H), (sqrt_hi_proper _ _ H). split; reflexivity.
   - rewrite Hu, Hv. split; field.
+  - assert (H : Qabs (u' * v') == Qabs (u * v)) by (rewrite Hu, Hv; setoid_replace (- u * - v) with (u * v) by ring; reflexivity).
+    rewrite (sqrt_lo_proper _ _ H), (sqrt_hi_proper _ _ H). split; reflexivity.
 Qed.
 
 Section SymPerm.
@@ -53,7 +55,7 @@ Proof.
   unfold pair_updates, evaluate. rewrite (asym_false cf Hcalc), Hchk. cbn [andb]. fold (geo_pair d a b).
   destruct (isOK d false (geo_pair d a b)); [reflexivity|].
   destruct (lag_rank d (g_d2 (geo_pair d a b))); [|reflexivity].
-  destruct Hcalc as [E|[E|E]]; rewrite E; reflexivity.
+  destruct Hcalc as [E|[E|[E|E]]]; rewrite E; reflexivity.
 Qed.
 
 Variable ufld : upd -> Q.
